@@ -871,7 +871,7 @@ V("C17", "defect-F16-returns", UC,
   ("        py_username = PyUnicode_DecodeFSDefaultAndSize(\n            ut->ut_user, strnlen(ut->ut_user, sizeof(ut->ut_user)));",
    "        py_username = PyUnicode_DecodeFSDefault(ut->ut_user);"), "fires:C17.R2")
 V("C17", "defect-F14-returns", PC,
-  ("    if (ioclass < 0 || ioclass > 7 ||\n            iodata < 0 || iodata > (int)IOPRIO_PRIO_MASK) {\n        PyErr_SetString(PyExc_ValueError, \"invalid ioclass or iodata value\");\n        return NULL;\n    }\n",
+  ("    if (ioclass < 0 || ioclass > 7 ||\n            iodata < 0 || iodata > (int)IOPRIO_PRIO_MASK) {\n        errno = EINVAL;\n        return PyErr_SetFromErrno(PyExc_OSError);\n    }\n",
    ""), "fires:C17.R4")
 V("C17", "utmp-bound-from-other-field", UC,
   ("            ut->ut_line, strnlen(ut->ut_line, sizeof(ut->ut_line)));",
